@@ -54,9 +54,25 @@ def make_gate(path: str, name: str, args: list, nq: int):
         if ps:
             p = ps[0]
             par = "(" + (str(int(p)) if sig[-1] == "i" else f"{p:.25f}") + ")"
-        c = Circuit.from_string(f"version 3.0; qubit[{nq}] q; bit[2] b; {name}{par} {qs}")
+        src = f"version 3.0; qubit[{nq}] q; bit[2] b; {name}{par} {qs}"
+        c = shared_parser().circuit_from_string(src)      # one Parser object parses every program of the run
+        if len(c.ir.statements) != 1 or c.qubit_register_size != nq:
+            raise RuntimeError(f"parsing one instruction on {nq} qubits gave {len(c.ir.statements)} statements on "
+                               f"{c.qubit_register_size} qubits")
         return c.ir.statements[0]
     raise ValueError(path)
+
+
+_PARSER = None
+
+
+def shared_parser():
+    global _PARSER
+    if _PARSER is None:
+        from opensquirrel.parser.libqasm.parser import Parser
+
+        _PARSER = Parser()
+    return _PARSER
 
 
 def model_args(name, args):
